@@ -61,6 +61,58 @@ CHECKS.update({
     ),
 })
 
+CHECKS.update({
+    "C02": ("exploration", "history oracle: n steps / dir flip / n steps round trip + per-call input-state byte snapshots",
+            "Runtime monitor around every real Integrator.step call: round trips of every integrator class on every "
+            "compatible zoo system (position-dependent metrics, curved multi-constraint manifolds, compositions of 1-8 "
+            "stages with random coefficients, all solvers, default and tightened tolerances, both directions, 1-25 steps) "
+            "must return to the start or fail with an IntegratorError; the input state's bytes are compared before/after "
+            "every call, also on failure.",
+            "Tolerances calibrated on the unchanged tree (worst observed 1% of the bound); rounding amplification on "
+            "diverging trajectories is counted inconclusive.", "DESIGN.md section 3, C02"),
+    "C03": ("exploration", "finite-difference Jacobian of the n-step map: J^T Omega J = Omega (induced form on T*M when constrained)",
+            "Runtime monitor forming central-difference Jacobians of the real 1-3 step maps on non-linear, "
+            "position-dependent-metric and curved-manifold systems; constrained systems use an independently computed "
+            "tangent basis of T*M and retracted curves.", "Decides symplecticity to 1e-6 (FD, h=1e-5).", "DESIGN.md section 3, C03"),
+    "C04": ("exploration", "icontract post-conditions on the real step / projection / momentum functions and solver return contracts",
+            "icontract post-conditions attached from the harness to ConstrainedLeapfrogIntegrator.step, "
+            "project_onto_cotangent_space, sample_momentum and wrappers on the three projection solvers (residual below "
+            "tolerance, Lagrange-multiplier form of the correction, only ConvergenceError escapes) stay on while "
+            "standalone trajectories and full constrained HMC chains run; evaluation counts per contract are reported.",
+            "Constraint residual judged with the zoo's own constraint function (bitwise what the solver saw).", "DESIGN.md section 3, C04"),
+    "C05": ("exploration", "differential oracle: system methods vs independent dense Hamiltonian and its finite differences",
+            "Every value and derivative method of all ten system classes (every metric matrix type, every return "
+            "convention of the user functions) is compared with the documented formula evaluated by independent dense code "
+            "and with 4th-order finite differences of it; sum rules checked.", "FD decides derivatives to 2e-6 relative.",
+            "DESIGN.md section 3, C05"),
+    "C06": ("exploration", "differential oracle: one step vs DOP853 reference flow at eps, eps/2, eps/4; composition coefficient invariants",
+            "One real step is compared with a high-accuracy ODE/DAE solution of the zoo's independent Hamiltonian; the "
+            "observed local-error and energy-error orders and the 'closer to flow(eps) than flow(2eps), flow(eps/2)' test "
+            "decide consistency; coefficient sets of constructed compositions are checked for unit sums and palindromy.",
+            "Reference flow noise floor 1e-9; orders are medians over 5 states x 2 halvings.", "DESIGN.md section 3, C06"),
+    "C07": ("exploration", "differential oracle: component flows vs matrix exponential / analytic kick; group-law invariants",
+            "h1_flow/h2_flow/dh2_flow_dmom of every tractable system with every constant metric type (incl. implicit "
+            "identity) against expm of the dense generator, energy conservation, additivity, inverse, |t| up to 50.",
+            "scipy.linalg.expm is the reference.", "DESIGN.md section 3, C07"),
+    "C08": ("exploration", "scripted-generator extraction of the linear map L; L L^T and Crank-Nicolson invariance identities",
+            "A scripted generator hands prescribed normal vectors to the real sample_momentum / momentum transitions; the "
+            "extracted L must satisfy L L^T = metric (projected when constrained), and the correlated update "
+            "A S A^T + B B^T = S; coefficient 0/1 special cases bitwise.", "Dense numpy algebra reference at 1e-8.",
+            "DESIGN.md section 3, C08"),
+    "C16": ("exploration", "exhaustive stager grid + write recorders / adapter call log on real sample_chains runs",
+            "(a) stages() of both stagers enumerated for every n_warm in 0..600 x n_main x adapter mixes x nine window "
+            "settings and checked for exact partition and adapter placement; (b) real sampler runs with __setattr__ "
+            "recorders on integrator/system and logging adapter subclasses: no parameter write after the main stage "
+            "starts, main-stage values are those of the last finalize with >=1 update, empty stages make no adapter call.",
+            "Sampler part sequential (n_process=1); grid exhaustive only for the listed window settings.", "DESIGN.md section 3, C16"),
+    "C17": ("exploration", "history + executable reference model (Hoffman-Gelman recursion; exact rational pooled moments)",
+            "The real adapters are driven directly with generated histories and compared update by update with an "
+            "independent dual-averaging recursion, and with exact Fraction arithmetic for variance/covariance over random "
+            "partitions into chains (very unequal sizes, random order, offsets up to 1e6 x spread); initial step-size "
+            "search re-evaluated at the returned step size and its neighbour.", "Tolerance 5*n*eps*(1+|mean|/std).",
+            "DESIGN.md section 3, C17"),
+})
+
 NOT_YET = "check not built yet in this session (in progress; see DESIGN.md section 3 for the planned monitor)"
 
 
